@@ -10,6 +10,7 @@ import (
 	"sort"
 	"strings"
 	"sync"
+	"sync/atomic"
 	"time"
 )
 
@@ -264,14 +265,64 @@ func runOne(sp solverSpec, file string, timeoutMs, seed int) (string, string) {
 	return runOneCtx(context.Background(), sp, file, timeoutMs, seed)
 }
 
+// cpuMillis returns the CPU time (user+system) consumed so far by process pid.
+func cpuMillis(pid int) (int64, bool) {
+	b, err := os.ReadFile(fmt.Sprintf("/proc/%d/stat", pid))
+	if err != nil {
+		return 0, false
+	}
+	s := string(b)
+	i := strings.LastIndex(s, ")")
+	if i < 0 {
+		return 0, false
+	}
+	fs := strings.Fields(s[i+1:])
+	if len(fs) < 13 {
+		return 0, false
+	}
+	var ut, stt int64
+	fmt.Sscan(fs[11], &ut)
+	fmt.Sscan(fs[12], &stt)
+	return (ut + stt) * 10, true // clock ticks are 10 ms
+}
+
+// wallFactor: a query may take this many times its CPU budget in wall-clock time
+// before it is given up (a loaded machine slows the solvers, not their answers).
+const wallFactor = 8
+
+// runOneCtx runs one solver on one query. The budget timeoutMs is CPU time of the solver
+// process, so that a verdict does not depend on the load of the machine; the wall-clock
+// cap is wallFactor times the budget.
 func runOneCtx(parent context.Context, sp solverSpec, file string, timeoutMs, seed int) (string, string) {
-	ctx, cancel := context.WithTimeout(parent, time.Duration(timeoutMs+2000)*time.Millisecond)
+	wall := timeoutMs*wallFactor + 5000
+	ctx, cancel := context.WithTimeout(parent, time.Duration(wall)*time.Millisecond)
 	defer cancel()
-	cmd := exec.CommandContext(ctx, sp.bin, sp.args(file, timeoutMs, seed)...)
+	cmd := exec.CommandContext(ctx, sp.bin, sp.args(file, wall, seed)...)
 	var out bytes.Buffer
 	cmd.Stdout = &out
 	cmd.Stderr = &out
-	_ = cmd.Run()
+	var overBudget atomic.Bool
+	if err := cmd.Start(); err == nil {
+		done := make(chan struct{})
+		go func() {
+			tk := time.NewTicker(50 * time.Millisecond)
+			defer tk.Stop()
+			for {
+				select {
+				case <-done:
+					return
+				case <-tk.C:
+					if ms, ok := cpuMillis(cmd.Process.Pid); ok && ms > int64(timeoutMs) {
+						overBudget.Store(true)
+						cmd.Process.Kill()
+						return
+					}
+				}
+			}
+		}()
+		_ = cmd.Wait()
+		close(done)
+	}
 	o := out.String()
 	first := ""
 	if strings.Contains(o, "(error ") {
@@ -285,7 +336,7 @@ func runOneCtx(parent context.Context, sp solverSpec, file string, timeoutMs, se
 		}
 	}
 	if first == "" {
-		if ctx.Err() != nil {
+		if ctx.Err() != nil || overBudget.Load() {
 			first = "timeout"
 		} else {
 			first = "error"
